@@ -7,10 +7,10 @@
 """
 from typing import List
 import billiard.pool as bp
-from harness.hbase import fail, tier, Prune, ND, trace, PART, NPART, untraced, realize
+from harness.hbase import fail, tier, Prune, ND, trace, PART, NPART, untraced, realize, NDCode, CODEMAX
 from harness import world as W
 
-K = tier(5, 6)
+K = tier(6, 7)
 LWT = 10
 
 
@@ -72,7 +72,7 @@ def _pool(nd, mode, want):
         nsub = 1
         maps.append(p.map_async(W.val, ['m0', 'm1'], chunksize=1))
         w.feed()
-    for _ in range(K - 1 if mode == 'fault' else K):
+    for _ in range(K):
         e = nd.draw(0, 6)
         if e == 0:
             if nsub >= 3:
@@ -165,30 +165,28 @@ def _pool(nd, mode, want):
 MODES = ('plain', 'fault', 'map', 'send')
 
 
-def _run(ev, want):
-    # NPART = 8: mode x first event (a submission / a worker step)
-    if NPART > 1 and (ev[0] == 0) != ((PART // 4) % 2 == 0):
-        return True
+def _run(code, want):
+    # NPART = 4: the mode; every choice is a digit of one solver integer
     try:
-        return _pool(ND(ev), MODES[PART % 4], want)
+        return _pool(NDCode(code), MODES[PART % 4], want)
     except Prune:
         return True
 
 
-def h_pool(ev: List[int]) -> bool:
+def h_pool(code: int) -> bool:
     """
-    pre: len(ev) == 2 * K + 2
+    pre: 0 <= code < CODEMAX
     post: _
     """
-    return _run(ev, None)
+    return _run(code, None)
 
 
-def h_pool_twin(ev: List[int]) -> bool:
+def h_pool_twin(code: int) -> bool:
     """
-    pre: len(ev) == 2 * K + 2
+    pre: 0 <= code < CODEMAX
     post: _
     """
-    return _run(ev, 'block')
+    return _run(code, 'block')
 
 
 # ---------------------------------------------------------------------------
